@@ -65,7 +65,8 @@ def _args(draw, signame):
     if draw(st.integers(0, 24)) == 0:
         keys.append(draw(st.sampled_from([-1, -1, -2])))        # positions do not count from the end of the signature
     # string keys
-    pool = names + (['zz', 'extra'] if vk or draw(st.integers(0, 5)) == 0 else [])
+    # ('copy', 'values', 'items': parameter names that are also attributes of the mapping class - think numpy.array(..., copy=False))
+    pool = names + (['zz', 'extra', 'copy', 'values', 'items'] if vk or draw(st.integers(0, 5)) == 0 else [])
     if pool:
         for nm in draw(st.lists(st.sampled_from(pool), max_size=3, unique=True)):
             keys.append(nm)
